@@ -6,7 +6,7 @@ CONSTANTS
   Lookbacks = {1}
   Times = {3, 4}
   Readers = {1, 2}
-  MaxUpd = 3
+  MaxUpd = 2
   ZoneAware = FALSE
   Addrs = {1, 2}
   Zones = {1}
